@@ -1,6 +1,6 @@
 -------------------------- MODULE Dispute_Life_Trace --------------------------
 (* C12 binding over recorded histories (projections dispute, bank).            *)
-EXTENDS Dispute, Json, TLC, TraceLib
+EXTENDS DisputeSM, Json, TLC, TraceLib
 CONSTANT KNOWN
 Trace == ndJsonDeserialize("trace.ndjson")
 VARIABLES l, viol, hist, disp, voters, supply,
@@ -95,7 +95,45 @@ CheckTally(e, post, sup2) ==
                  THEN {} ELSE {"DecidedWhenVotingPeriodEnds"})
            ELSE {})
 
+\* ---- conformance with the constructive life-cycle model (DisputeSM): the dispute table after the step, seen through
+\* the model's fields, is the one the model computes from the table before it and the call's arguments (the tally's
+\* outcome is read off the result; whether it is admissible is CheckTally's subject).  Mismatch = MODEL:<step>, drift.
+V(d) == [id |-> d.id, hash |-> d.hash, status |-> d.status, round |-> d.round, slash |-> d.slash, burn |-> d.burn, feetotal |-> d.feetotal,
+         startn |-> d.startn, endn |-> d.endn, open |-> d.open, pending |-> d.pending, prev |-> d.prev,
+         vote |-> IF "vote" \in DOMAIN d THEN [has |-> TRUE, startn |-> d.vote.startn, endn |-> d.vote.endn, result |-> d.vote.result, executed |-> d.vote.executed] ELSE NoVote]
+SMV(ds) == { V(d) : d \in Range(ds) }
+Swap(S, old, new) == (S \ {old}) \cup {new}
+SMCheck(e, post) ==
+  LET pre == SMV(disp)
+      pst == SMV(post)
+      now == e.tn
+  IN
+  IF e.ev = "ProposeDispute" THEN
+     (IF ~e.ok THEN (IF pst = pre THEN {} ELSE {"MODEL:ProposeRejected"})
+      ELSE IF pst = {} THEN {"MODEL:Propose"}
+      ELSE LET n == CHOOSE d \in pst : \A x \in pst : x.id <= d.id IN
+           (IF pst = ProposeNext(pre, now, n.id, n.hash, SlashAmount(e.cat, e.rpower), e.fee) THEN {} ELSE {"MODEL:Propose"})
+           \cup (IF ProposeOk(pre, now, n.hash, e.fee) THEN {} ELSE {"MODEL:ProposeGuard"}))
+  ELSE IF e.ev = "AddFeeToDispute" THEN
+     (IF ~e.ok THEN (IF pst = pre THEN {} ELSE {"MODEL:AddFeeRejected"})
+      ELSE IF ~HasId(pre, e.id) THEN {"MODEL:AddFee"}
+      ELSE LET d == IdOf(pre, e.id) IN
+           (IF pst = Swap(pre, d, AddFeeNext(d, now, e.amt)) THEN {} ELSE {"MODEL:AddFee"})
+           \cup (IF AddFeeOk(d, now, e.amt) THEN {} ELSE {"MODEL:AddFeeGuard"}))
+  ELSE IF e.ev = "Vote" THEN
+     (IF ~e.ok THEN (IF pst = pre THEN {} ELSE {"MODEL:VoteRejected"})
+      ELSE IF ~HasId(pre, e.id) \/ ~HasId(pst, e.id) THEN {"MODEL:Vote"}
+      ELSE LET d == IdOf(pre, e.id) IN
+           (IF pst = Swap(pre, d, VoteNext(d, now, IdOf(pst, e.id).vote.result)) /\ IdOf(pst, e.id).vote.result \in 0 .. 3 THEN {} ELSE {"MODEL:Vote"})
+           \cup (IF VoteOk(d, now) THEN {} ELSE {"MODEL:VoteGuard"}))
+  ELSE IF e.ev = "BeginBlock" THEN
+     (IF ~e.ok THEN {}
+      ELSE LET r == BeginNext(pre, now, LAMBDA d : IF HasId(pst, d.id) THEN IdOf(pst, d.id).vote.result ELSE 0) IN
+           (IF pst = r.ds THEN {} ELSE {"MODEL:BeginBlock"}) \cup (IF r.fails THEN {"MODEL:BeginBlockShouldHaveFailed"} ELSE {}))
+  ELSE (IF pst = pre THEN {} ELSE {"MODEL:Other_" \o e.ev})
+
 Check(e) ==
+  SMCheck(e, e.post.dispute.disputes) \cup
   LET post == e.post.dispute.disputes
       pv == e.post.dispute.voters
   IN CheckStatus(e, post) \cup CheckNew(e, post)
